@@ -227,7 +227,8 @@ AlphabetRich ==
     /\ \E i, j \in 1..NB : i < j /\ Tb(FreshBs, j)[1] < Tb(FreshBs, i)[2]         \* overlapping target bins
     /\ \E i \in 1..(NB - 1) : Tb(FreshBs, i)[2] < Tb(FreshBs, i + 1)[1]           \* a gap between target bins
     /\ TC # SortedC
-AlphabetInv == ~started => AlphabetOk /\ AlgAgrees /\ AlphabetRich
+\* (state-independent: evaluated in one initial state only)
+AlphabetInv == (~started /\ V = [kind |-> "flux", key |-> "none", conv |-> "copy"]) => AlphabetOk /\ AlgAgrees /\ AlphabetRich
 FitsInv == started => /\ \A i \in 1..Len(last.val) : last.val[i].k = "num" => Fits(last.val[i].v)
                       /\ \A i \in 1..Len(last.err2) : Fits(last.err2[i])
 =============================================================================
